@@ -5,5 +5,6 @@ CONSTANTS
   Kinds = {"plain"}
   CloseTarget = "own"
   RegisterGuard = TRUE
-INVARIANTS ServingWhileRunning RegistryExact StopPostcondition Export
+  Record = FALSE
+INVARIANTS ServingWhileRunning RegistryExact StopPostcondition
 CHECK_DEADLOCK FALSE
